@@ -88,11 +88,34 @@ func vClassifier(t testing.TB, thr float64) *Classifier {
 
 func vBuild(thr float64, docs []vDoc) *Classifier {
 	c := NewClassifier(thr)
-	for _, d := range docs {
+	for i, d := range docs {
 		seg := strings.Split(d.key, "/")
 		c.AddContent(seg[0], seg[1], seg[2], d.raw)
+		// the classifier is already in use while its corpus grows: anything derived
+		// lazily from the corpus on first use must notice later additions
+		if i%97 == 5 {
+			c.Match(d.raw[:vMin(len(d.raw), 400)])
+		}
 	}
 	return c
+}
+
+// vSpice sprinkles presentation hazards into a text (multi-byte letters, typographic
+// punctuation, HTML entities in either case, tabs, CR LF, invalid bytes). Only for
+// monitors whose oracle does not depend on the exact words (C02, C03, C04, C10).
+func vSpice(r *rand.Rand, text string, rate int) string {
+	spice := []string{"—", "‐", "“", "”", "é", "漢字", "Авт", "😀", "©", "§", "·", "\t", " \r", "&amp;", "&AMP;", "&#169;", "&APOS;", "&nbsp;", "\xff", "\xe2\x80", "(https://x.y/z)", "version 97.3", "1)-a.", "2.0..", "x;y&z"}
+	w := strings.Split(text, " ")
+	for i := range w {
+		if r.Intn(rate) == 0 {
+			if r.Intn(2) == 0 {
+				w[i] += spice[r.Intn(len(spice))]
+			} else {
+				w[i] = spice[r.Intn(len(spice))] + w[i]
+			}
+		}
+	}
+	return strings.Join(w, " ")
 }
 
 func vKey(m *Match) string { return m.MatchType + "/" + m.Name + "/" + m.Variant }
